@@ -286,6 +286,106 @@ fn check_property(case: &Case, seen: &[String]) -> Option<(String, String)> {
     None
 }
 
+/// A delivery that is transferred once, left unsettled, and transferred again with `resume = true` after the
+/// link was detached and resumed — the second time in `frames` frames, whose continuation frames repeat the
+/// delivery-tag or (`repeat_tag = false`) leave it out, as continuation frames may.  Returns what `recv` gave
+/// before the detach and after the resumption (the message body as hex, or the error).
+pub fn run_resumed_delivery(frames: usize, repeat_tag: bool) -> Result<(String, String), String> {
+    use fe2o3_amqp_types::performatives::{Attach, Detach};
+    use fe2o3_amqp_types::definitions::{Handle, Role};
+    use serde_amqp::primitives::{Binary, OrderedMap};
+    const TAG: &[u8] = b"tag-of-the-delivery";
+    let rt = paused_runtime();
+    rt.block_on(async move {
+        let (cio, pio) = tokio::io::duplex(1 << 20);
+        let mut peer = Peer::new(pio);
+        let e = |x: PeerError| format!("{:?}", x);
+        let client = tokio::spawn(async move {
+            let mut conn = Connection::builder().container_id("c10-resume").open_with_stream(cio).await.map_err(|e| format!("open: {:?}", e))?;
+            let mut session = Session::begin(&mut conn).await.map_err(|e| format!("begin: {:?}", e))?;
+            let mut r = Receiver::attach(&mut session, "rx", "q").await.map_err(|e| format!("attach: {:?}", e))?;
+            let show = |x: Result<fe2o3_amqp::link::delivery::Delivery<Value>, fe2o3_amqp::link::RecvError>| match x {
+                Ok(d) => match d.body() {
+                    Value::Binary(b) => hex(b),
+                    other => format!("{:?}", other),
+                },
+                Err(e) => format!("err:{:?}", e).chars().take(80).collect(),
+            };
+            let before = show(tokio::time::timeout(Duration::from_secs(5), r.recv::<Value>()).await.map_err(|_| "recv before the detach timed out".to_string())?);
+            let detached = r.detach().await.map_err(|(_, e)| format!("detach: {:?}", e))?;
+            let mut r = match detached.resume().await {
+                Ok(x) => x.into_receiver(),
+                Err(e) => return Err(format!("resume: {:?}", e.kind)),
+            };
+            let after = match tokio::time::timeout(Duration::from_secs(5), r.recv::<Value>()).await {
+                Err(_) => "nothing".to_string(),
+                Ok(x) => show(x),
+            };
+            Ok::<_, String>((before, after))
+        });
+        peer.accept_open(&PeerOpen::default()).await.map_err(e)?;
+        peer.accept_begin(0, 0, 2048, 2048).await.map_err(e)?;
+        let a = peer.accept_attach(0, 0, Some(0), ReceiverSettleMode::First).await.map_err(e)?;
+        let wait_credit = |peer: &mut Peer| {
+            let _ = peer;
+        };
+        let _ = wait_credit;
+        loop {
+            match peer.recv_frame().await.map_err(e)? {
+                (_, Performative::Flow(f), _) if f.link_credit.unwrap_or(0) > 0 => break,
+                _ => {}
+            }
+        }
+        let msg = message_bytes(77, 60);
+        let tr = |id: Option<u32>, tag: bool, more: bool, resume: bool| {
+            let mut t = transfer(0, id, if tag { Some(TAG.to_vec()) } else { None }, None, more);
+            t.resume = resume;
+            if id.is_none() {
+                t.message_format = None;
+            }
+            t
+        };
+        peer.send(0, Performative::Transfer(tr(Some(0), true, false, false)), &msg).await.map_err(e)?;
+        loop {
+            match peer.recv_frame().await.map_err(e)? {
+                (_, Performative::Detach(_), _) => break,
+                _ => {}
+            }
+        }
+        peer.send(0, Performative::Detach(Detach { handle: Handle(0), closed: false, error: None }), &[]).await.map_err(e)?;
+        let again = loop {
+            match peer.recv_frame().await.map_err(e)? {
+                (_, Performative::Attach(at), _) => break at,
+                _ => {}
+            }
+        };
+        if again.unsettled.as_ref().map(|m| m.len()).unwrap_or(0) != 1 {
+            return Err(format!("the resuming attach names {:?} unsettled deliveries, one expected", again.unsettled.as_ref().map(|m| m.len())));
+        }
+        let mut map = OrderedMap::new();
+        map.insert(Binary::from(TAG.to_vec()), None);
+        let ours = Attach { name: a.name.clone(), handle: Handle(0), role: Role::Sender, snd_settle_mode: Default::default(), rcv_settle_mode: Default::default(), source: again.source.clone(), target: again.target.clone(), unsettled: Some(map), incomplete_unsettled: false, initial_delivery_count: Some(1), max_message_size: None, offered_capabilities: None, desired_capabilities: None, properties: None };
+        peer.send(0, Performative::Attach(ours), &[]).await.map_err(e)?;
+        loop {
+            match peer.recv_frame().await.map_err(e)? {
+                (_, Performative::Flow(f), _) if f.link_credit.unwrap_or(0) > 0 => break,
+                _ => {}
+            }
+        }
+        let n = frames.max(1).min(msg.len());
+        let piece = msg.len() / n;
+        for i in 0..n {
+            let lo = i * piece;
+            let hi = if i + 1 == n { msg.len() } else { (i + 1) * piece };
+            let first = i == 0;
+            let t = tr(if first { Some(1) } else { None }, first || repeat_tag, i + 1 < n, true);
+            peer.send(0, Performative::Transfer(t), &msg[lo..hi]).await.map_err(e)?;
+        }
+        let r = tokio::time::timeout(Duration::from_secs(30), client).await.map_err(|_| "the client did not finish".to_string())?.map_err(|e| format!("{:?}", e))??;
+        Ok(r)
+    })
+}
+
 pub fn main(opts: &Opts) {
     let mut report = Report::new(
         "C10",
@@ -361,6 +461,23 @@ pub fn main(opts: &Opts) {
         }
     } else {
         report.notes.push("model driver not available: correspondence skipped".into());
+    }
+    // a delivery transferred again after the link was resumed, in several frames
+    if opts.property != "C18" {
+        for (frames, repeat_tag) in [(1usize, true), (3, true), (3, false), (2, false), (7, false)] {
+            report.evaluations += 1;
+            report.count("resumed_deliveries");
+            report.nontrivial_case(fnv(&format!("resumed{}{}", frames, repeat_tag)));
+            let replay = json!({"property": "C10", "module": "reasm", "resumed_delivery": {"frames": frames, "repeat_tag": repeat_tag}});
+            match run_resumed_delivery(frames, repeat_tag) {
+                Ok((before, after)) => {
+                    if before.starts_with("err:") || before != after {
+                        report.finding(Finding { kind: "violation", key: "resumed-delivery-differs".into(), description: format!("a delivery received before the link was detached and transferred again (resume = true) in {} frames after the resumption, continuation frames {} the delivery-tag: before `{}`, after `{}`", frames, if repeat_tag { "repeating" } else { "omitting" }, before.chars().take(60).collect::<String>(), after.chars().take(80).collect::<String>()), replay });
+                    }
+                }
+                Err(e) => report.finding(Finding { kind: "violation", key: "resumed-delivery-scenario-failed".into(), description: e, replay }),
+            }
+        }
     }
     report.write(&opts.report);
     println!("reasm: {} cases, {} non-trivial, {} findings", report.evaluations, report.nontrivial.len(), report.findings.len());
